@@ -577,6 +577,35 @@ def stack_probe(res, stats):
     stats['evaluations'] = stats.get('evaluations', 0) + n
     stats.setdefault('hist', {})['native-stack probe'] = {'runs': n, 'aborted': nd}
 
+def long_run_probe(res, stats):
+    """native stack on long FLAT inputs (60 000-digit superscript and digit runs, 70 000 blanks, a 30 000-argument list): the lexer
+       and the list parser are loops, so these need no more stack than a short input; a reader that recurses once per character
+       aborts. (Long operator chains such as 1+1+... are left out: their left-nested tree is evaluated recursively, see DESIGN 9.4.)"""
+    import subprocess
+    try:
+        vlib.build_stack_probe()
+    except vlib.BuildError:
+        return
+    shapes = [('1' + gen.SUP[0] * 60000 + gen.SUP[2], 'superscript-run'), ('0' * 60000 + '7', 'digit-run'), ('2' + ' ' * 70000 + '+2', 'blank-run'),
+              ('max(' + '1,' * 30000 + '7)', 'flat-list')]
+    n = nd = 0
+    for prof in ('debug', 'release'):
+        exe = os.path.join(vlib.ROOT, 'harness/target', prof, 'stack_probe')
+        for ev in EVS:
+            for e, shape in shapes:
+                if shape == 'flat-list' and not gen.FV[ev]:
+                    continue
+                for kib in (8192, 2048):
+                    p = subprocess.run([exe, ev, str(kib), '-'], input=enc(e).encode(), stdout=subprocess.PIPE, stderr=subprocess.PIPE, timeout=300, env=vlib.ENV)
+                    n += 1
+                    if p.returncode != 0:
+                        nd += 1
+                        res['violations'].insert(0, {'kind': 'stack-overflow-long-run', 'cases': [[ev, 'eval', gen.default_ph(ev), enc(e[:40] + '...')]], 'profile': prof,
+                                                     'observed': 'process killed (exit %s) on a %d KiB thread stack' % (p.returncode, kib),
+                                                     'why': '%s build of eval_%s: a flat %s of %d characters exhausts a %d KiB stack and aborts the process (short inputs of the same shape are fine)' % (prof, ev, shape, len(e), kib)})
+    res['levels']['native-stack/long-flat-inputs'] = (n, nd)
+    stats['evaluations'] = stats.get('evaluations', 0) + n
+
 def s_nested(tier, rng, evs=EVS):
     """every construct nested in each of its operand positions, at several depths up to the 256-character bound:
        repeated evaluation of a sub-expression (work exponential in the depth) shows as a step count beyond the budget"""
@@ -1155,7 +1184,7 @@ def run_pairs(pid, pairs, stats, profiles=('debug', 'release'), what='pair', num
     res['levels'][what + '/impl-vs-impl'] = (n, sum(1 for v in res['violations'] if v['kind'] == 'metamorphic'))
     return res
 
-CTX = ['%s', '2+%s', '2*%s', '6/%s', '2^%s', '-%s', '%s+1', '%s*2', '(%s)', '3-%s-1', '+%s', '1+2*%s*3', '2^%s*3', '-%s-1']
+CTX = ['%s', '2+%s', '2*%s', '6/%s', '2^%s', '-%s', '%s+1', '%s*2', '(%s)', '3-%s-1', '+%s', '1+2*%s*3', '2^%s*3', '-%s-1', '2^-%s', '2*-%s', '6/-%s', '2^+%s', '2--%s']
 def ctxs(ev):
     c = list(CTX)
     if gen.FV[ev]:
@@ -1360,6 +1389,12 @@ def run_C13(tier, rng, stats):
                 pairs.append((case(ev, 'eval', None, o), case(ev, 'eval', None, '+' * (L - len(o)) + o), 'prefix + up to the length bound'))
                 k = (L - len(o)) // 2
                 pairs.append((case(ev, 'eval', None, o), case(ev, 'eval', None, '(' * k + o + ')' * k), 'redundant brackets up to the length bound'))
+    # very long superscript and digit runs (zero padded: the value stays small): a reader that recurses or counts in a narrow type
+    for ev in EVS:
+        for n in (5000, 20000, 40000):
+            sup0 = gen.SUP[0] * n + gen.SUP[2]
+            pairs.append((case(ev, 'eval', None, '1' + sup0), case(ev, 'eval', None, '1^' + '0' * n + '2'), 'superscript run of %d digits' % (n + 1)))
+            pairs.append((case(ev, 'eval', None, '0' * n + '7'), case(ev, 'eval', None, '7'), 'literal with %d leading zeros' % n))
     # very long runs of white space (the stripped input is short; raw lengths cross 2^12, 2^15, 2^16): size limits on the raw argument
     for ev in EVS:
         for n in (300, 4090, 33000, 66000, 70000):
@@ -1385,7 +1420,9 @@ def run_C13(tier, rng, stats):
                 x = sg + l
                 for y in ['(' + x + ')', sg + '(' + l + ')', '+' + x, x + ' ', ' ' + x, '(' + sg + '(' + l + '))']:
                     pairs.append((case(ev, 'eval', None, x), case(ev, 'eval', None, y), 'whole-input signed literal vs an equivalent spelling'))
-    return run_pairs('C13', pairs, stats, profiles=('debug', 'release'))
+    res = run_pairs('C13', pairs, stats, profiles=('debug', 'release'))
+    long_run_probe(res, stats)
+    return res
 
 def lit_of_ph(ev, ph):
     """a bracketed literal expression that evaluates exactly to the placeholder, or None"""
@@ -2011,6 +2048,13 @@ def run_C16(tier, rng, stats):
             for k in range(24):
                 pos = rng.below(len(hist) + 1)
                 hist.insert(pos, case(ev, 'eval', gen.ph_pool(ev)[k % 5], e))
+    # inputs that need the full normalisation of the entry point (every kind of Unicode blank, long runs): a contended
+    # fallback path that normalises differently shows only while several calls overlap
+    for ev in EVS:
+        for e in ['6\u2003*\u00a07', '1\u000b+\u00852', '2\u3000+\u20282', ' 1 + 2 ', '(\u205f1\u1680)'] + ([gen.FV[ev][0][0] + '\u3000' + gen.FV[ev][0][1:] + '(@,\u20283)'] if gen.FV[ev] else []):
+            for k in range(40):
+                pos = rng.below(len(hist) + 1)
+                hist.insert(pos, case(ev, 'eval', gen.ph_pool(ev)[k % 5], e))
     lines = ['\t'.join(c) for c in hist]
     import subprocess
     res = empty()
@@ -2214,6 +2258,15 @@ def s_funcgrid(tier, rng, evs=('f64', 'number', 'complex', 'decimal')):
                         out.append(case(ev, 'eval', f2w(1.0) + ',' + f2w(x), f + '(@)'))
                 else:
                     out.append(case(ev, 'eval', (f2w(x) if ev == 'f64' else 'F' + f2w(x)), f + '(@)'))
+        if gen.POSTFIX5[ev]:
+            # angles written in degrees: every multiple of 15 (whole and quarter turns included) as f(@°), and a few as f(@rad)
+            for f in gen.F1[ev]:
+                for k in range(-1095, 1096, 15):
+                    ph = f2w(float(k)) if ev == 'f64' else ('F' + f2w(float(k)) if ev == 'number' else f2w(float(k)) + ',' + f2w(0.0))
+                    out.append(case(ev, 'eval', ph, f + '(@°)'))
+                    if k % 90 == 0:
+                        out.append(case(ev, 'eval', None, f + '(' + (str(k) if k >= 0 else '(-%d)' % -k) + '°)'))
+                        out.append(case(ev, 'eval', ph, f + '(@rad)'))
         if gen.HAS_BANG[ev]:
             for x in tenths(tier):
                 if ev == 'decimal':
